@@ -66,12 +66,18 @@ class C01(Check):
                 opts.append(("timeout", str(tmo)))
             else:
                 tmo = 2
-            wants = ([0] if opts else []) + T.numbering(n // bs + 1, 0)
+            # a server limit below / at / above the requested size: the blocks have the size the OACK announces
+            max_bs = 65464
+            if opts and opts[0][0] == "blksize" and rng.random() < 0.3:
+                max_bs = rng.choice([8, max(8, bs - 1), bs, bs + 1])
+            ebs = min(bs, max_bs)
+            wants = ([0] if opts else []) + T.numbering(n // ebs + 1, 0)
             ev = T.coop_script(rng, wants, tmo * T.TICKS, retries, fault_rate=rng.choice([0.0, 0.3, 0.8]))
             if rng.random() < 0.25 and ev:       # truncate: client disappears
                 ev = ev[:rng.randrange(0, len(ev))]
             ch = [rng.randrange(1, bs + 3) for _ in range(rng.randrange(0, 12))]
-            yield T.mk_case(content, ch, options=opts, retries=retries, wrap=rng.choice([0, 1, None]), events=ev)
+            yield T.mk_case(content, ch, options=opts, retries=retries, wrap=rng.choice([0, 1, None]), events=ev,
+                            max_bs=max_bs)
         # (d) crossing block 65535: plain, and with duplicated / stale / future ACKs around the wrap
         for wrap in ((0, 1, None) if not quick else (None,)):
             nblocks = 65538
